@@ -1272,6 +1272,17 @@ func (f *VFSFile) buildIndexMap(ctx context.Context, infos []*ltx.FileInfo) (map
 		commit = hdr.Commit
 	}
 
+	// Earlier files in the plan may contain pages beyond the final database
+	// size (the database shrank since). A restore truncates to the last commit;
+	// drop those entries so the index describes the same database.
+	if len(infos) > 0 {
+		for pgno := range index {
+			if pgno > commit {
+				delete(index, pgno)
+			}
+		}
+	}
+
 	f.mu.Lock()
 	f.commit = commit
 	f.mu.Unlock()
